@@ -9,26 +9,26 @@ TEMPLATES = [
     "let X be 1\nFind takes X\nwhile X is greater than 0\ngive back X\n\n\nsay Find taking 5\nsay X\n",
     "Count takes N\nif N is 0\ngive back 0\n\nput Count taking N minus 1 into R\ngive back R plus N\n\nsay Count taking 3\nsay Count taking 10\n",
     # call by value, locals do not leak, outer update
-    "Mod takes A\nput 99 into A\nput 5 into Local\nput 7 into G\ngive back A\n\nput 1 into G\nput 2 into V\nsay Mod taking V\nsay V\nsay G\nsay Local\n",
-    "Arr takes A\nrock A with 9\nlet A at 0 be \"changed\"\ngive back A\n\nrock L with 1, 2\nput Arr taking L into R\nsay L\nsay L at 0\nsay R\nsay R at 0\n",
+    "Mod takes Apex\nput 99 into Apex\nput 5 into Local\nput 7 into G\ngive back Apex\n\nput 1 into G\nput 2 into V\nsay Mod taking V\nsay V\nsay G\nsay Local\n",
+    "Arr takes Apex\nrock Apex with 9\nlet Apex at 0 be \"changed\"\ngive back Apex\n\nrock L with 1, 2\nput Arr taking L into R\nsay L\nsay L at 0\nsay R\nsay R at 0\n",
     "put 1 into X\nif true\nput 2 into X\nput 3 into Y\nsay Y\n\nsay X\nsay Y\n",
     "put 0 into I\nwhile I is less than 2\nbuild I up\nput I into Inner\n\nsay I\nsay Inner\n",
     # arguments left to right, with side effects
-    "Show takes X\nsay X\ngive back X\n\nAdd takes A and B and C\ngive back A plus B plus C\n\nsay Add taking Show taking 1, Show taking 2, Show taking 3\n",
+    "Show takes X\nsay X\ngive back X\n\nAdd takes Apex and B and C\ngive back Apex plus B plus C\n\nsay Add taking Show taking 1, Show taking 2, Show taking 3\n",
     # pronouns
     "put 5 into X\nsay it\nput 6 into Y\nsay it\nsay X plus it\nbuild it up\nsay Y\n",
     "put 5 into X\nif X\nsay it\n\nsay it\n",
-    "F takes A\ngive back A\n\nput 1 into X\nsay F taking 2\nsay it\n",
+    "F takes Apex\ngive back Apex\n\nput 1 into X\nsay F taking 2\nsay it\n",
     "say it\n",
     "put 1 into X\nwhile X is less than 3\nbuild X up\n\nbuild it up\nsay X\n",
     # errors
-    "F takes A and B\ngive back A\n\nsay F taking 1\n",
-    "F takes A\ngive back A\n\nsay F taking 1, 2\n",
+    "F takes Apex and B\ngive back Apex\n\nsay F taking 1\n",
+    "F takes Apex\ngive back Apex\n\nsay F taking 1, 2\n",
     "put 1 into X\nsay X taking 1\n",
     "say Nope\n",
     "say Nope taking 1\n",
-    "F takes A\ngive back A\n\nsay F\n",
-    "F takes A, A\ngive back A\n\nsay F taking 1, 2\n",
+    "F takes Apex\ngive back Apex\n\nsay F\n",
+    "F takes Apex, Apex\ngive back Apex\n\nsay F taking 1, 2\n",
     "Foo takes X\nGive back X plus 1\n\nBar takes Foo\nGive back Foo taking 1\n\nSay Bar taking 5\n",
     "Outer takes X\nInner takes Y\ngive back Y times 2\n\ngive back Inner taking X\n\nsay Outer taking 4\nsay Inner taking 1\n",
     "F takes X\nsay X\n\nsay F taking 1\n",
